@@ -24,7 +24,7 @@ type TreeCacheClient interface {
 	ReadRunningFull(ctx context.Context) ([]*cache.Update, error)
 	GetBranchesHighesPrecedence(ctx context.Context, path []string, filters ...CacheUpdateFilter) int32
 	ReadCurrentUpdatesHighestPriorities(ctx context.Context, ccp PathSlices, count uint64) UpdateSlice
-	IntendedPathExists(ctx context.Context, path []string) (bool, error)
+	IntendedPathExists(ctx context.Context, path []string, filters ...CacheUpdateFilter) (bool, error)
 	ReadUpdatesOwner(ctx context.Context, owner string) UpdateSlice
 }
 
@@ -50,7 +50,7 @@ func NewTreeCacheClient(datastore string, cc cache.Client) *TreeCacheClientImpl 
 	}
 }
 
-func (t *TreeCacheClientImpl) IntendedPathExists(ctx context.Context, path []string) (bool, error) {
+func (t *TreeCacheClientImpl) IntendedPathExists(ctx context.Context, path []string, filters ...CacheUpdateFilter) (bool, error) {
 	t.intendedStoreIndexMutex.RLock()
 	if t.intendedStoreIndex == nil {
 		t.intendedStoreIndexMutex.RUnlock()
@@ -58,8 +58,18 @@ func (t *TreeCacheClientImpl) IntendedPathExists(ctx context.Context, path []str
 		t.intendedStoreIndexMutex.RLock()
 	}
 	defer t.intendedStoreIndexMutex.RUnlock()
-	_, exists := t.intendedStoreIndex[strings.Join(path, KeysIndexSep)]
-	return exists, nil
+	entries, exists := t.intendedStoreIndex[strings.Join(path, KeysIndexSep)]
+	if !exists {
+		return false, nil
+	}
+	// the index reflects the store before the transaction, the filters allow to
+	// ignore the entries of the intents that the transaction replaces.
+	for _, entry := range entries {
+		if ApplyCacheUpdateFilters(entry, filters) {
+			return true, nil
+		}
+	}
+	return false, nil
 }
 
 func (c *TreeCacheClientImpl) Read(ctx context.Context, opts *cache.Opts, paths [][]string) []*cache.Update {
